@@ -31,4 +31,28 @@ PROPS = {
         "trusted": [],
         "partial": "",
     },
+    "C12": {
+        "coq_deps": ["Props/C12.v", "Tie/TieScope.v"],
+        "tie_theorems": ["TieScope.tie_matrix_scope_command_step", "TieScope.tie_matrix_not_into_matrix", "TieScope.tie_matrix_token_re"],
+        "rule": "(permutation, string) pairs driven through CommandStep.InterpolateMatrixPermutation: every string of <=6 (thorough <=7) macro-symbols from {'{','}',' ','\\t','matrix','.','a','-'} with the permutation {'':V, a:'{{matrix}}'} (exhaustive; ties the hand-written scanner to Go's regexp engine), plus seeded random concatenations of tokens, near-misses ({{matrix.}}, {{ matrix .os}}, {matrix}, {{matrixx}}, {{{matrix}}}, \\v and \\f whitespace, non-ASCII) and plain text with random permutations (token-shaped values included) placed in every field of a fully populated step; observable: transformed command or error; oracle: independent reference scanner + scope (label, plugin source/config keys+values, env values, unknown fields incl. nested ordered map change like the command; key, env names, matrix, signature, cache unchanged); empty permutation changes nothing. Non-trivial = the string changed or the call failed.",
+        "exhaustive_note": "all macro-symbol strings up to the stated length",
+        "trusted": ["Go regexp engine (one regexp) modelled by a hand-written scanner, tied by the exhaustive macro-symbol comparison and Tie theorem on the regexp literal"],
+        "partial": "the step-level walker is tied by the generated scope table (Tie/TieScope.v) and the implementation-side scope oracle; the Go regexp engine itself is not verified",
+    },
+    "C15": {
+        "coq_deps": ["Props/C15.v", "Tie/TieKinds.v"],
+        "tie_theorems": ["TieKinds.tie_step_by_type", "TieKinds.tie_step_by_type_default", "TieKinds.tie_step_by_key_inference", "TieKinds.tie_step_by_key_inference_default", "TieKinds.tie_new_scalar_step", "TieKinds.tie_new_scalar_step_default"],
+        "rule": "the full table: all 1024 subsets of the ten kind-determining keys x (12 type values incl. unknown/empty/wrong-case + absent), each without and with extra keys (incl. the empty key, aliases, nested mappings; thorough: every extras set), all well-typed, parsed through pipeline.Parse; scalar steps from a pool; groups with children of every kind incl. unknown ones; observable: dynamic step type and errors.Is against the two sentinels; oracle: rule table from the property text. Non-trivial = at least one of the ten keys or a type present.",
+        "exhaustive_note": "the key-subset x type table is enumerated completely",
+        "trusted": [],
+        "partial": "",
+    },
+    "C18": {
+        "coq_deps": ["Props/C18.v", "Tie/TieJwk.v"],
+        "tie_theorems": ["TieJwk.tie_valid_algs_for_key_type", "TieJwk.tie_valid_signing_algorithms", "TieJwk.tie_valid_key_types", "TieJwk.tie_validate_order"],
+        "rule": "exhaustive (RSA, EC, OKP, oct, public halves, structurally invalid RSA/EC) x (every signature, key-encryption and content-encryption algorithm jwa registers + none, unknown and mis-cased names + missing) through jwkutil.Validate; generated key pairs validate and cross-verify only with their own public half (quick: EdDSA x2, ES512, PS512; thorough: two of each); LoadKey over all key sets of <=2 keys from a pool of 9 (valid, invalid, duplicate and missing ids) plus 60 random (thorough: all 729) triples x requested ids {'',a,b,c,zz}, written to build/tmp and read back by jwkutil.LoadKey.",
+        "exhaustive_note": "key kind x registered algorithm table and key sets of <=2 keys are enumerated completely",
+        "trusted": ["jwx: jwk.Key.Validate, jwa algorithm classification, jwk.Parse, key generation and jws sign/verify are inputs to the model (k_valid, k_has_alg, k_is_sig, names), not verified"],
+        "partial": "jwx validation, key generation and real signatures are exercised by the correspondence only",
+    },
 }
